@@ -552,8 +552,21 @@ impl<'arena> PrettyFormatter<'arena> {
         )
     }
 
+    /// Continuation lines keep their indentation relative to the opener. At
+    /// the start of a line the opener sits at the ambient nesting; after code
+    /// on its line it does not, and lines placed at the nesting would gain
+    /// that difference again on every re-formatting.
     fn block_comment(&self, comment: &'arena BlockComment) -> RcDoc<'arena> {
-        RcDoc::intersperse(comment.text.split('\n').map(RcDoc::text), RcDoc::hardline())
+        let text = comment.text.clone();
+        RcDoc::column(move |column| {
+            let text = text.clone();
+            RcDoc::nesting(move |nesting| {
+                let column = isize::try_from(column).unwrap_or(isize::MAX);
+                let nesting = isize::try_from(nesting).unwrap_or(isize::MAX);
+                let lines = text.split('\n').map(|line| RcDoc::text(line.to_owned()));
+                RcDoc::intersperse(lines, RcDoc::hardline()).nest(column - nesting)
+            })
+        })
     }
 
     fn line_separation(&self, separation: LineSeparation) -> RcDoc<'arena> {
